@@ -28,3 +28,23 @@ Definition lscan_model (sa : list (nfilt * spec)) (b : body) (reverse : bool) (v
       let '(cur, c, ys) := scan_loop specs b orig' order xs (orig', c0) [] in
       Ok (cur, c, ys_in_order n ys)
   end.
+
+(* ---------------- nn.remat_scan: nested scans over a stack of layers ---------------- *)
+(* the parameters of prod(lengths) layers stacked as a tensor of shape lengths: one scan per level, the innermost over
+   the layers themselves.  The layer is a parameter: carry -> weights -> carry. *)
+Inductive nest (W : Type) := NLeaf (w : W) | NNode (kids : list (nest W)).
+Arguments NLeaf {W} w. Arguments NNode {W} kids.
+Section NestedScan.
+  Variables C W : Type.
+  Variable layer : C -> W -> C.
+  Fixpoint nscan (c : C) (t : nest W) : C :=
+    match t with
+    | NLeaf w => layer c w
+    | NNode kids => fold_left nscan kids c
+    end.
+  Fixpoint nflatten (t : nest W) : list W :=
+    match t with
+    | NLeaf w => [w]
+    | NNode kids => flat_map nflatten kids
+    end.
+End NestedScan.
